@@ -116,6 +116,15 @@ def catalogue():
         Case("cfg:no_schema_source", "settings", "InvalidConfiguration", drop={"schema_path"}, strategy="graphqlschema"),
         Case("cfg:schema_path_missing", "settings", "InvalidConfiguration", opts={"schema_path": "nope.graphql"}),
         Case("cfg:schema_path_missing", "settings", "InvalidConfiguration", opts={"schema_path": "nope.graphql"}, strategy="graphqlschema"),
+        # "~" is not expanded by the loaders: a path that exists only under $HOME is a missing path (HOME = a directory of the job)
+        Case("cfg:tilde_queries_path", "settings", "InvalidConfiguration", opts={"queries_path": "~/queries.graphql"},
+             files={"fakehome/queries.graphql": QUERIES}, env={"HOME": "@job/fakehome"}),
+        Case("cfg:tilde_schema_path", "settings", "InvalidConfiguration", opts={"schema_path": "~/schema.graphql"},
+             files={"fakehome/schema.graphql": SCHEMA}, env={"HOME": "@job/fakehome"}),
+        Case("cfg:tilde_schema_path", "settings", "InvalidConfiguration", opts={"schema_path": "~/schema.graphql"}, strategy="graphqlschema",
+             files={"fakehome/schema.graphql": SCHEMA}, env={"HOME": "@job/fakehome"}),
+        Case("cfg:tilde_files_to_include", "settings", "InvalidConfiguration", opts={"files_to_include": ["~/extra_helpers.py"]},
+             files={"fakehome/extra_helpers.py": "X = 1\n"}, env={"HOME": "@job/fakehome"}),
         Case("cfg:no_queries_path", "settings", "MissingConfiguration", drop={"queries_path"}),
         Case("cfg:queries_path_missing", "settings", "InvalidConfiguration", opts={"queries_path": "nope.graphql"}),
         Case("cfg:target_package_path_not_dir", "settings", "InvalidConfiguration", opts={"target_package_path": "schema.graphql"}),
